@@ -28,6 +28,7 @@ Record case := {
   k_cmd : string;
   k_clean : bool;
   k_dirdot : bool;
+  k_fixed : bool;                (* K_clean_own_output did not reproduce on this tree *)
   k_sel : list (string * string);
   k_expect_ok : bool;            (* the harness built a valid invocation: exit 0 expected *)
   k_before : list finfo;
@@ -185,7 +186,7 @@ Definition genfile_of (c : case) : name :=
   match k_sel c with (g, EmptyString) :: _ => file_name (k_cmd c) g "" | _ => EmptyString end.
 
 Definition cfg_of (c : case) : cfg :=
-  {| c_cmd := k_cmd c; c_clean := k_clean c; c_dirdot := k_dirdot c;
+  {| c_cmd := k_cmd c; c_clean := k_clean c; c_dirdot := k_dirdot c; c_fixed := k_fixed c;
      c_genfile := genfile_of c; c_fd := first_fd (k_ops c) |}.
 
 Definition tmp_shape (o : output) : bool :=
@@ -246,6 +247,7 @@ Record kcase := {
   q_cmd : string;
   q_clean : bool;
   q_dirdot : bool;
+  q_fixed : bool;
   q_before : list finfo;
   q_new : list (name * bytes);       (* reference run: outputs *)
   q_ref_removed : list name;         (* reference run: names removed by Clean *)
@@ -298,7 +300,7 @@ Definition Pb_kill (c : kcase) : bool :=
    content of the (at most one) leftover temporary file. *)
 Definition crash_match (c : kcase) (outs : list output) : bool :=
   let init := mk_init (map (fun f => (fi_name f, fi_ino f, fi_bytes f)) (q_before c)) in
-  let cf := {| c_cmd := q_cmd c; c_clean := q_clean c; c_dirdot := q_dirdot c;
+  let cf := {| c_cmd := q_cmd c; c_clean := q_clean c; c_dirdot := q_dirdot c; c_fixed := q_fixed c;
                c_genfile := match outs with o :: _ => o_name o | [] => EmptyString end; c_fd := 0 |} in
   let names := dedup (map fi_name (q_before c) ++ map af_name (q_after c) ++ map o_tmp outs ++ map o_name outs)%list in
   existsb (fun s =>
@@ -338,3 +340,29 @@ Fixpoint kmismatches_from (i : N) (cs : list kcase) : list (N * N) :=
               if N.eqb v 0 then kmismatches_from (N.succ i) r else (i, v) :: kmismatches_from (N.succ i) r
   end.
 Definition kmismatches := kmismatches_from 0%N.
+
+(* ------------------------------------------- L1: the header tests and the glob *)
+(* h_aio / h_gen: what shoot's isAllInOneFile / isGeneratedBy answered on a file with
+   content h_bytes; g_match: what path/filepath.Match answered *)
+Record hcase := { h_cmd : string; h_bytes : bytes; h_aio : bool; h_gen : bool }.
+Definition hverdict (c : hcase) : N :=
+  if Bool.eqb (is_aio (first_line (h_bytes c))) (h_aio c)
+     && Bool.eqb (is_gen (h_cmd c) (first_line (h_bytes c))) (h_gen c) then 0%N else 1%N.
+Fixpoint hmismatches_from (i : N) (cs : list hcase) : list (N * N) :=
+  match cs with
+  | [] => []
+  | c :: r => let v := hverdict c in
+              if N.eqb v 0 then hmismatches_from (N.succ i) r else (i, v) :: hmismatches_from (N.succ i) r
+  end.
+Definition hmismatches := hmismatches_from 0%N.
+
+Record gcase := { g_cmd : string; g_name : name; g_match : bool }.
+Definition gverdict (c : gcase) : N :=
+  if Bool.eqb (glob (g_cmd c) (g_name c)) (g_match c) then 0%N else 1%N.
+Fixpoint gmismatches_from (i : N) (cs : list gcase) : list (N * N) :=
+  match cs with
+  | [] => []
+  | c :: r => let v := gverdict c in
+              if N.eqb v 0 then gmismatches_from (N.succ i) r else (i, v) :: gmismatches_from (N.succ i) r
+  end.
+Definition gmismatches := gmismatches_from 0%N.
